@@ -36,6 +36,12 @@ def gen_op(rng, cur_kinds, p_bad=0.06, children_of=None, p_copy=0.08):
             return {"op": "copy", "o": rng.choice(full)}
         return {"op": "copy", "o": rng.randrange(cur_n)}
     if r < 0.40:
+        full = [c for c in colls if children_of and children_of.get(c)]
+        if full and rng.random() < 0.12:
+            # the argument is the LIVE children list of a collection (`new.add(old.children, override_parent=True)`, also of the
+            # receiving collection itself): it names the objects that were its children when the call was made
+            src = rng.choice(full)
+            return {"op": "add", "c": rng.choice(colls), "objs": list(children_of[src]), "ov": rng.random() < 0.8, "live": src}
         return {"op": "add", "c": rng.choice(colls), "objs": pick(rng.choice([1, 1, 2, 3])), "ov": rng.random() < 0.6}
     if r < 0.58:
         if children_of and rng.random() < 0.4:
@@ -294,6 +300,10 @@ def real_lines(h, rng=None, n_ops=0, p_copy=0.08):
                 op["first"] = len(objs)
                 op["owned"] = had_parent is not None
                 objs.extend(clones)
+            elif k == "add" and "live" in op:
+                live = objs[op["live"]].children  # the collection's own list object, handed over as ONE list argument
+                assert [id(x) for x in live] == [id(objs[i]) for i in op["objs"]], "harness bookkeeping: children_of out of date"
+                objs[op["c"]].add(live, override_parent=op["ov"])
             elif k == "add":
                 objs[op["c"]].add(*[objs[i] for i in op["objs"]], override_parent=op["ov"])
             elif k == "remove":
